@@ -2,7 +2,7 @@
 # usage: trymutant.sh <patch.diff|commit-ish> <property> [more properties]
 # Applies a patch to a scratch worktree of /repo's HEAD (never to /repo itself),
 # runs the quick check(s) against it and removes the worktree again.
-P="$1"; shift
+P="$1"; shift; [ -f "$P" ] && P=$(realpath "$P")
 WT=$(mktemp -d /tmp/wt_mut.XXXXXX)
 rmdir "$WT"
 if [ -f "$P" ]; then
